@@ -88,7 +88,7 @@ func (g *Gen) wireType(t *schema.Type, out *[]byte) {
 
 func (g *Gen) wireFix(n int, pad byte, left bool) []byte {
 	b := []byte(g.Text(n))
-	switch g.R.Intn(8) {
+	switch g.R.Intn(9) {
 	case 0:
 		for i := range b {
 			b[i] = pad
@@ -119,8 +119,9 @@ func (g *Gen) wireFix(n int, pad byte, left bool) []byte {
 			b[1+g.R.Intn(n-2)] = ' '
 			g.feat("wire:interior-space")
 		}
-	case 5:
-		// pad run on the pad side then text
+	case 5, 6:
+		// pad run on the pad side then text; the text byte next to the run is often a byte that
+		// sloppy trimming would also eat (NUL, space, '0', 0xFF, tab)
 		k := g.R.Intn(n + 1)
 		for i := 0; i < k; i++ {
 			if left {
@@ -130,6 +131,17 @@ func (g *Gen) wireFix(n int, pad byte, left bool) []byte {
 			}
 		}
 		g.feat("wire:pad-run")
+		if k < n && g.R.Chance(2, 3) {
+			edge := n - 1 - k
+			if left {
+				edge = k
+			}
+			c := []byte{0, ' ', '0', 0xFF, '\t', '\n'}[g.R.Intn(6)]
+			if c != pad {
+				b[edge] = c
+				g.feat("wire:trim-bait-next-to-pad-run")
+			}
+		}
 	}
 	return b
 }
